@@ -2,6 +2,7 @@ import IbicusModel.Props.C09
 import IbicusModel.Lemmas.GenDebiasers
 import IbicusModel.Lemmas.GenStatsKernels
 import IbicusModel.Lemmas.GenIsimipFreq
+import IbicusModel.Props.Capstone3
 -- property theorems
 #print axioms Props.C09.image_orderPres
 #print axioms Props.C09.ls_add_strict_mono
@@ -70,3 +71,27 @@ import IbicusModel.Lemmas.GenIsimipFreq
 #print axioms Lemmas.GenIsimipFreq.get_P_obs_future
 #print axioms Lemmas.GenIsimipFreq.get_nr_of_entries_to_set_to_bound
 #print axioms Lemmas.GenIsimipFreq.scale_nr_of_entries_to_set_to_bounds
+-- capstone 3: C09 stated on the denotation of the regenerated per-window pieces (`Props/Capstone3.lean`)
+#print axioms Props.Capstone3.regenWindowProg_denote
+#print axioms Props.Capstone3.regenWindow_LS_additive
+#print axioms Props.Capstone3.regenWindow_LS_multiplicative
+#print axioms Props.Capstone3.regenWindow_QM_eq_model_param
+#print axioms Props.Capstone3.regenWindow_QM_eq_model_nonparam
+#print axioms Props.Capstone3.regenWindow_CDFt_eq_model
+#print axioms Props.Capstone3.regenWindow_CDFt_eq_model_nossr
+#print axioms Props.Capstone3.regenStep6_eq_model
+#print axioms Props.Capstone3.regenWindow_ISIMIP_eq_model
+#print axioms Props.Capstone3.regenWindow_LS_add_strict_mono
+#print axioms Props.Capstone3.regenWindow_LS_mult_mono
+#print axioms Props.Capstone3.regenWindow_QM_param_mono_family_signed
+#print axioms Props.Capstone3.regenWindow_QM_param_mono_signed
+#print axioms Props.Capstone3.regenWindow_QM_param_mono
+#print axioms Props.Capstone3.regenWindow_QM_nonparam_mono_signed
+#print axioms Props.Capstone3.regenWindow_QM_nonparam_mono
+#print axioms Props.Capstone3.regenWindow_orderPres_of_image
+#print axioms Props.Capstone3.regenWindow_CDFt_mono
+#print axioms Props.Capstone3.regenWindow_CDFt_ssr_order
+#print axioms Props.Capstone3.regenWindow_CDFt_ssr_order_nonneg
+#print axioms Props.Capstone3.regenStep6_mono
+#print axioms Props.Capstone3.regenStep6_mono_unbounded
+#print axioms Props.Capstone3.regenWindow_ISIMIP_mono
